@@ -67,7 +67,14 @@ func (x *Exec) ndCall(fr *frame, fn *ssa.Function, args []Value) Value {
 		a := x.M.Mem.AllocSym(n, nm)
 		l := x.M.Fresh(nm+".len", 64)
 		x.M.Assume(smt.Ule(l, c64(uint64(n))))
-		return Agg{a.Ptr(), l}
+		// fork on the length: a concrete length keeps every later copy and
+		// comparison at concrete offsets (far fewer and cheaper queries)
+		for k := 0; k < n; k++ {
+			if x.M.Branch(smt.Eq(l, c64(uint64(k)))) {
+				return Agg{a.Ptr(), c64(uint64(k))}
+			}
+		}
+		return Agg{a.Ptr(), c64(uint64(n))}
 	case "nd_alloc":
 		nm := x.constString(args[0])
 		n := x.constInt(args[1], "size")
